@@ -234,7 +234,7 @@ def callbacks_harness(ex):
 def callbacks_body(ex, errors):
     which = ex.choice("exc", len(EXCS))
     E = EXCS[which]
-    st = {"default_fail": False, "getter_fail": False, "setter_fail": False, "handler_fail": False, "getter_calls": 0}
+    st = {"default_fail": False, "getter_fail": False, "legacy_fail": False, "setter_fail": False, "handler_fail": False, "getter_calls": 0}
     log = {"h1": [], "h2": [], "p": [], "proto": []}
 
     class Parent(HasTraits):
@@ -267,8 +267,8 @@ def callbacks_body(ex, errors):
 
         @cached_property
         def _get_legacy(self):
-            if st["getter_fail"]:
-                st["getter_fail"] = False
+            if st["legacy_fail"]:
+                st["legacy_fail"] = False
                 raise E("injected")
             return self.dep * 100
 
@@ -294,7 +294,11 @@ def callbacks_body(ex, errors):
     o.on_trait_change(lambda new: log["p"].append(new), "cached")
     o.on_trait_change(lambda new: log["proto"].append(new), "x")
     o.on_trait_change(lambda new: log["p"].append(("legacy", new)), "legacy")
-    scenario = ex.choice("scenario", 10)
+    scenario = ex.choice("scenario", 12)
+    if scenario == 10:
+        return unread_default_scenario(ex, E, st, o)
+    if scenario == 11:
+        return filter_scenario(ex, E)
     if scenario == 8:
         return adapter_scenario(ex, E)
     if scenario == 9:
@@ -365,7 +369,7 @@ def callbacks_body(ex, errors):
         ex.check(log["h1"][-1] == 10 and o.v == 10, "afterwards all handlers run again")
     elif scenario == 7:        # legacy cached Property(depends_on=...): getter fails once inside the notification
         ex.check(o.legacy == 100, "cached depends_on property reads")
-        st["getter_fail"] = True
+        st["legacy_fail"] = True
         o.dep = 2
         ex.check(o.legacy == 200, "after a getter failure inside the notification, reads are not stale")
         o.dep = 3
@@ -385,6 +389,92 @@ def callbacks_body(ex, errors):
         o.parent.x = 8
         ex.check(o.x == 8 and log["proto"] == [8], "after the failed assignment the link is intact: prototype changes still notify")
     return {"scenario": scenario}
+
+
+def unread_default_scenario(ex, E, st, o):
+    """assignment to a trait that has a listener and was never read: the setter computes the default to have an old value to
+    report; the default method fails there"""
+    seen = []
+    if ex.flag("observe_listener"):
+        o.observe(lambda e: seen.append((e.old, e.new)), "dyn")
+    else:
+        o.on_trait_change(lambda obj, n, old, new: seen.append((old, new)), "dyn")
+    st["default_fail"] = True
+    exc = None
+    try:
+        o.dyn = [5]
+    except Exception as e:
+        exc = type(e)
+    ex.check(exc in (E, TraitError), "a default method failing inside an assignment reaches the caller unchanged or as TraitError")
+    ex.check("dyn" not in o.__dict__ and seen == [], "... and the assignment has no effect: nothing stored, no handler called")
+    st["default_fail"] = False
+    ex.check(o.dyn == [1], "the next read computes the default normally")
+    o.dyn = [6]
+    ex.check(o.dyn == [6] and seen == [([1], [6])], "afterwards assignment works and reports the real old value")
+    return {"scenario": 10}
+
+
+def filter_scenario(ex, E):
+    """a user-supplied observer filter (match(filter)) raises at its k-th call while the observer is being REMOVED: the
+    registrations are as before (also for matching traits added later), and a later removal is complete"""
+    from traits.observation.api import match
+    from traits.observation import exception_handling as _oeh
+    k = 1 + ex.choice("failing_filter_call", 5)
+    arm = {"n": None}
+
+    def flt(name, trait):
+        if arm["n"] is not None:
+            arm["n"] -= 1
+            if arm["n"] == 0:
+                arm["n"] = None
+                raise E("injected")
+        return name.startswith("v")
+
+    class M(HasTraits):
+        v1 = Int()
+        v2 = Int()
+        w = Int()
+
+    o = M()
+    events = []
+    handler = lambda e: events.append(e.name)
+    o.observe(handler, match(flt))
+    pre_added = ex.flag("a_matching_trait_was_added_before")
+    if pre_added:
+        o.add_trait("v5", Int())
+    arm["n"] = k
+    failed = None
+    try:
+        o.observe(handler, match(flt), remove=True)
+    except Exception as e:
+        failed = type(e)
+    arm["n"] = None
+    if failed is not None:
+        ex.check(failed in (E, TraitError), "a failing filter's exception reaches the caller unchanged or as TraitError")
+        o.v1 += 1
+        o.w += 1
+        o.v2 += 1
+        if pre_added:
+            o.v5 = 2
+        o.add_trait("v9", Int())
+        o.v9 = 3
+        o.add_trait("x9", Int())
+        o.x9 = 4
+        ex.check(events == ["v1", "v2"] + (["v5"] if pre_added else []) + ["v9"],
+                 "after a failed removal the observer is registered as before, also for matching traits added later")
+        del events[:]
+        ok = True
+        try:
+            o.observe(handler, match(flt), remove=True)
+        except Exception:
+            ok = False
+        ex.check(ok, "... and can then be removed")
+    o.v1 += 1
+    o.v2 += 1
+    o.add_trait("v10", Int())
+    o.v10 = 1
+    ex.check(events == [], "a completed removal is complete: no call for observed traits nor for traits added later")
+    return {"scenario": 11}
 
 
 def adapter_scenario(ex, E):
@@ -519,6 +609,8 @@ def obligations(tier, build):
                                   leverage="q, exception class, element overlap"))
     obs.append(Obligation("callbacks", callbacks_harness,
                           bounds={"scenarios": ["custom validator", "default method", "property setter", "cached getter on read",
-                                                "cached getter inside the notification", "change handler", "legacy depends_on cached getter", "PrototypedFrom validator"]},
+                                                "cached getter inside the notification", "change handler", "legacy depends_on cached getter", "PrototypedFrom validator",
+                                                "adapter factory", "default exception handler", "default method inside an assignment to a never-read trait",
+                                                "observer filter at its k-th call during removal (k <= 5)"]},
                           leverage="choice feasibility only (compiled code runs concretely)"))
     return obs
